@@ -47,25 +47,51 @@ def run(thorough=False):
     except Exception as e:  # noqa
         log("  mirsmt C30: cannot analyse (%s)" % e)
         return {"exit": EXIT_INCONCLUSIVE, "mirsmt_error": str(e)}
+    n_copy = len(queries)
+    try:
+        hq, hm = helper_obligations(mir)
+    except Exception as e:  # noqa
+        log("  mirsmt C30: instruction helpers: cannot analyse (%s)" % e)
+        return {"exit": EXIT_INCONCLUSIVE, "mirsmt_error": str(e)}
+    queries += hq
+    meta += hm
     br = smt.check_batch(queries, thorough=thorough)
     res = {"evaluations": len(queries), "distinct_nontrivial": 0, "samples": [],
-           "mirsmt_regions": [s[0] for s in SITES], "mirsmt_seconds": br["z3_s"]}
+           "mirsmt_regions": [s[0] for s in SITES] + ["every function of dispatch.rs that calls "
+                                                      "throw_resource_error (%d)" % len(hm)],
+           "mirsmt_seconds": br["z3_s"]}
     if br["results"] is None:
         res["exit"] = EXIT_INCONCLUSIVE
         return res
-    viol = []
-    for m, r in zip(meta, br["results"]):
+    viol, hviol = [], []
+    for k, (m, r) in enumerate(zip(meta, br["results"])):
         if r["answer"] == "unsat":
             res["distinct_nontrivial"] += 1
-        else:
+        elif k < n_copy:
             viol.append(m)
-        res["samples"].append({"query": "%s (%s return): source restored before returning" % (
-            m["fn"], "error" if m["error_return"] else "normal"), "answer": r["answer"], "calls": m["calls"]})
-    log("  mirsmt C30: %d returning paths of copy_term, %d restore the source term first, %d do not "
-        "(z3 %.2fs)" % (len(queries), res["distinct_nontrivial"], len(viol), br["z3_s"]))
+        else:
+            hviol.append(m)
+        if k < n_copy:
+            res["samples"].append({"query": "%s (%s return): source restored before returning" % (
+                m["fn"], "error" if m["error_return"] else "normal"), "answer": r["answer"], "calls": m["calls"]})
+        else:
+            res["samples"].append({"query": m["obligation"], "answer": r["answer"]})
+    log("  mirsmt C30: %d returning paths of copy_term, %d instruction-helper obligations; %d hold, %d + %d "
+        "do not (z3 %.2fs)" % (n_copy, len(queries) - n_copy, res["distinct_nontrivial"], len(viol),
+                               len(hviol), br["z3_s"]))
     res["exit"] = EXIT_OK
+    if hviol:
+        res["mirsmt_violations"] = hviol
+        from .. import prolog
+        rp = prolog.replay_instruction_exhaustion(hviol)
+        if rp["reproduced"]:
+            log("VIOLATION property=C30 replay=%s" % rp["path"])
+            res["exit"] = EXIT_VIOLATION
+        else:
+            log("  mirsmt C30: the instruction-level exhaustion replay recovered (%s) -> inconclusive" % rp.get("why"))
+            res["exit"] = EXIT_INCONCLUSIVE
     if viol:
-        res["mirsmt_violations"] = viol
+        res.setdefault("mirsmt_violations", []).extend(viol)
         from .. import prolog
         rp = prolog.replay_copy_term_exhaustion(viol)
         if rp["reproduced"]:
@@ -73,5 +99,75 @@ def run(thorough=False):
             res["exit"] = EXIT_VIOLATION
         else:
             log("  mirsmt C30: the exhaustion replay recovered (%s) -> inconclusive" % rp.get("why"))
-            res["exit"] = EXIT_INCONCLUSIVE
+            if res["exit"] != EXIT_VIOLATION:
+                res["exit"] = EXIT_INCONCLUSIVE
     return res
+
+
+def helper_obligations(mir):
+    """A heap growth that fails inside an instruction (get_*/unify_*/put_*/set_* helpers of
+    dispatch.rs) raises the resource error with throw_resource_error; the instruction must then hand
+    control to the handler by calling backtrack() itself, or return to an arm of the dispatch loop
+    that tests `fail` before the next instruction. Per function: z3 decides, from the call sequence
+    of each path, `thrown => (backtracked or caller_checks_fail)`, where caller_checks_fail is
+    established for every call site of the function in dispatch_loop (all paths from the call to the
+    loop head read MachineState.fail or call backtrack)."""
+    fail_idx = util.struct_field_index("src/machine/machine_state.rs", "MachineState", "fail")
+    dl_name = mir.find(r"::dispatch_loop$")[0]
+    dl = mir.body(dl_name)
+    head = util.loop_head(dl)
+    queries, meta = [], []
+    for n in sorted(mir.index):
+        if not n.startswith("dispatch::") or n == dl_name or "closure" in n:
+            continue
+        b = mir.body(n)
+        if not any("throw_resource_error(" in l for ls in b.blocks.values() for l in ls):
+            continue
+        short = n.split("::")[-1]
+        heads = util.back_edge_targets(b)
+        paths = []
+        for entry in ["bb0"] + list(heads):
+            paths += core.Executor(b, stop_blocks=tuple(heads), max_depth=500, max_paths=6000).run(entry)
+        thrown_paths, unhandled = 0, 0
+        for p in paths:
+            calls = [e[1] for e in p.events if e[0] == "call"]
+            idx = [i for i, c in enumerate(calls) if c.endswith("throw_resource_error")]
+            if not idx:
+                continue
+            thrown_paths += 1
+            if not any(c.endswith("::backtrack") for c in calls[idx[0]:]):
+                unhandled += 1
+        caller_checks = True
+        sites = 0
+        if unhandled:
+            # every call site in the dispatch loop must test `fail` (or backtrack) before the loop head
+            pat = re.compile(r"= dispatch::<impl [^>]*>::%s\(" % re.escape(short))
+            for bb, ls in dl.blocks.items():
+                if not pat.search(ls[-1]):
+                    continue
+                m = re.search(r"return: (bb\d+)", ls[-1])
+                if not m:
+                    continue
+                sites += 1
+                try:
+                    fpaths = core.Executor(dl, stop_blocks=[head], max_depth=120, max_paths=800).run(m.group(1))
+                except core.Unsupported:
+                    caller_checks = False      # not established
+                    continue
+                for fp in fpaths:
+                    tested = any(c[0][0] == "proj" and c[0][2] == ".%d" % fail_idx for c in fp.conds) or \
+                        any(e[0] == "call" and e[1].endswith("::backtrack") for e in fp.events) or \
+                        fp.end in ("diverge", "return")
+                    if not tested:
+                        caller_checks = False
+            if sites == 0:
+                caller_checks = False
+        queries.append("(declare-const thrown Bool)\n(declare-const backtracked Bool)\n(declare-const caller Bool)\n"
+                       "(assert (and thrown (= backtracked %s) (= caller %s)))\n"
+                       "(assert (not (=> thrown (or backtracked caller))))" % (
+                           "false" if unhandled else "true", "true" if caller_checks else "false"))
+        meta.append({"fn": short, "obligation": "%s: a raised resource error reaches the handler (%d error paths, "
+                     "%d without backtrack(), %d call sites checked)" % (short, thrown_paths, unhandled, sites)})
+    if not meta:
+        raise core.Unsupported("no function of dispatch.rs calls throw_resource_error")
+    return queries, meta
